@@ -283,6 +283,9 @@ func main() {
 		base := 1 + rng.Intn(sf.MaxGap)
 		for d := 0; d < sf.Depth; d++ {
 			gap := 1 + rng.Intn(sf.MaxGap)
+			if rng.Intn(12) == 0 {
+				base = 1 + rng.Intn(sf.MaxGap) // the peer's rhythm changes, possibly by orders of magnitude
+			}
 			if rng.Intn(3) > 0 {
 				gap = base // mostly steady arrivals
 			}
